@@ -19,6 +19,7 @@ def handleLine (line : String) : String :=
   match ts with
   | "rx" :: _ => DriverRx.handle false ts
   | "rxb" :: _ => DriverRx.handle true ts
+  | "rxprod" :: _ => DriverRx.handleProd ts
   | "tx" :: _ => DriverTx.handle ts
   | "ser" :: _ => DriverSer.handle ts
   | "chain" :: _ => DriverChain.handle ts
